@@ -1,8 +1,12 @@
 """Implementation side of C20 (tracker loop).  stdin: one JSON case per line; stdout: one JSON
 result per line.  argv[1]: scratch directory.
 
-case = {"steps": [{"pre": [resource, ...], "line": "<raw bytes as latin-1 text>", "nl": bool}, ...],
-        "werror": bool}
+case = {"steps": [{"pre": [resource, ...], "line": "<raw bytes as latin-1 text>", "nl": bool,
+                   "sig": ["INT"|"TERM", "pid"|"group"] (optional)}, ...],
+        "werror": bool, "pending": [["INT"|"TERM", "pid"|"group"], ...] (optional)}
+  "sig"     : that signal is sent to the tracker (its pid / its process group) just before the line
+  "pending" : the tracker is spawned with SIGINT/SIGTERM blocked, as ensure_running() does, and these
+              signals are sent immediately; the child enters main() only once they are pending
   "pre"  : resources of the universe to (re)create before the line is sent
   "nl"   : False only for the last step (a final line without newline: no synchronisation possible,
            what it deletes is reported together with the EOF phase)
@@ -19,6 +23,7 @@ import json
 import os
 import re
 import shutil
+import signal
 import subprocess
 import sys
 import tempfile
@@ -124,9 +129,32 @@ def run_case(case, scratch):
     if case.get("werror"):
         cmd += ["-W", "error"]
     cmd += [os.path.join(HERE, "c20_tracker_child.py"), str(r), logp]
+    pend = case.get("pending") or []
+    if pend:
+        cmd.append("pending=" + ",".join(sorted({x[0] for x in pend})))
     errf = open(errp, "wb")
-    p = subprocess.Popen(cmd, pass_fds=[r], cwd=root, stdin=subprocess.DEVNULL, stdout=subprocess.DEVNULL,
-                         stderr=errf)
+
+    def send_sig(p, name, target):
+        signum = getattr(signal, "SIG" + name)
+        try:
+            if target == "group":
+                os.killpg(p.pid, signum)   # own session: the group holds the tracker only
+            else:
+                os.kill(p.pid, signum)
+        except OSError:
+            pass
+
+    both = {signal.SIGINT, signal.SIGTERM}
+    if pend:
+        signal.pthread_sigmask(signal.SIG_BLOCK, both)   # what ensure_running() does around the spawn
+    try:
+        p = subprocess.Popen(cmd, pass_fds=[r], cwd=root, stdin=subprocess.DEVNULL, stdout=subprocess.DEVNULL,
+                             stderr=errf, start_new_session=True)
+        for name, target in pend:
+            send_sig(p, name, target)
+    finally:
+        if pend:
+            signal.pthread_sigmask(signal.SIG_UNBLOCK, both)
     os.close(r)
     errf.close()
     log = Tail(logp)
@@ -146,6 +174,8 @@ def run_case(case, scratch):
         for k, st in enumerate(case["steps"]):
             for res in st.get("pre", []):
                 create(root, res)
+            if st.get("sig"):
+                send_sig(p, st["sig"][0], st["sig"][1])
             raw = st["line"].encode("latin-1")
             if not st.get("nl", True):
                 write(raw)
